@@ -42,7 +42,7 @@ ASSUMPTIONS = [
     "only be the controller's doing",
     "programs with entanglement blocks are well-formed (ids free, every request awaited); random tails may fault",
 ]
-PROBES = ["keep-response-deferred-busy", "stop-during-foreign-subroutine", "init-during-foreign-subroutine", "reinit-after-stop", "keep-mapped",
+PROBES = ["duplicate-registration", "keep-response-deferred-busy", "stop-during-foreign-subroutine", "init-during-foreign-subroutine", "reinit-after-stop", "keep-mapped",
           "keep-mapped-while-other-app-holds-qubits", "program-fault-in-one-app", "three-apps", "qfree", "qalloc"]
 
 BIAS = [3, 1, 1, 3, 4, 2, 1, 1, 2, 1, 2, 2, 6, 5, 2]
@@ -129,7 +129,8 @@ def run(ch: Choices, opts: Dict[str, Any]) -> Dict[str, Any]:
                     for i in range(npairs):
                         g.shadow.qubits.add(i)
                 progs.append((body, npairs))
-            ep.append({"unit": unit, "progs": progs})
+            dup = ch.draw(n_subs, "dupat") if (not calm and "duplicate-init" not in avoid and ch.flag(1, 8, "dupinit")) else None
+            ep.append({"unit": unit, "progs": progs, "dup_init_after": dup, "dup_unit": 1 + ch.draw(4, "dupunit")})
         apps.append({"id": a, "epochs": ep})
         wl.append(repr(ep))
 
@@ -268,6 +269,24 @@ def run(ch: Choices, opts: Dict[str, Any]) -> Dict[str, Any]:
                     mapped_now = sum(1 for p in node.unit_module(aid) if p is not None)
                     yield y
                 state["in_flight"].discard(aid)
+                if ep.get("dup_init_after") == k:
+                    # a second registration of an id that is still registered must be refused without touching anything
+                    before = snap_all()
+                    refused = False
+                    try:
+                        node.init_app(aid, ep["dup_unit"])
+                    except Exception:  # noqa: BLE001 -- the refusal
+                        refused = True
+                    bump(faults, "duplicate-registration-of-a-live-application")
+                    bump(probes, "duplicate-registration")
+                    trace.add("dup-init", aid)
+                    after = snap_all()
+                    if after != before:
+                        who = [a2 for a2 in set(before) | set(after) if before.get(a2) != after.get(a2)]
+                        raise Violation("I4", f"I4|duplicate-registration-changed-state|{'refused' if refused else 'accepted'}",
+                                        {"app": aid, "changed": who, "before": {a2: before.get(a2) for a2 in who},
+                                         "after": {a2: after.get(a2) for a2 in who}, "trace": _tail(trace)})
+                    check_global("dup-init")
                 yield None
             # wait until nothing of this app is outstanding, then stop it
             if _has_requests(ex, aid):
